@@ -92,6 +92,9 @@ func checkC14(c *Ctx) {
 		checkLookupLeavesPackageStateAlone(c, p, "C14-R17")
 		checkFoundBaseSwitchesDirectColourOn(c, p, "C14-R18")
 		checkRegistriesFiledUnderAliases(c, p, "C14-R19")
+		c.Rule("C14-R20", "TCELL_TRUECOLOR applies to every name: no successful return of LookupTerminfo is reachable without the read of the variable (a fast path for registered names skips the force-on arm)")
+		c.Expect("C14-R20", 1)
+		checkOverrideBeforeEverySuccess(c, p, "C14-R20")
 		c14Disable(c, p)
 		c14FoundBaseIsUsed(c, p)
 		checkVetoLast(c, p, "C14-R10")
